@@ -18,6 +18,7 @@ T_DEFS = {
 contract(Contract(
     target=M + ":add_tag_newline_handling.<locals>.enhanced_wrapper",
     props=["C03", "C06", "C05"],
+    assumes=['line_ends_with_tag / line_starts_with_tag / _is_unindented_tag_line / line_is_block_content are uninterpreted predicates', 'the final re-joining loop (blank line between tag and block segments) is only covered for no-raise; _fix_* post-processing by their own contracts / bounded'],
     shards=8,
     params={"text": "str", "initial_indent": "str", "subsequent_indent": "str"},
     free={"base_wrapper": "callable"},
@@ -170,6 +171,7 @@ GHOST_FENCE = (
 contract(Contract(
     target=M + ":preprocess_tag_block_spacing",
     props=["C06", "C04", "C02"],
+    assumes=['fence regex ^ {0,3}(`{3,}|~{3,}): group 1 has at least 3 characters; what it matches is uninterpreted (the spec fence state uses the same match as an oracle)', '_is_tag_only_line / line_is_block_content are uninterpreted predicates (bounded layer only)'],
     shards=10,
     params={"text": "str"},
     types={"lines": "list[str]", "result_lines": "list[str]", "line": "str", "prev_line": "str", "open_fence": "opt[str]",
